@@ -92,6 +92,7 @@ pub fn inputs(seed: u64) -> Arc<Vec<Sample>> {
     let mut b1 = b.clone();
     b1.truncate(90);
     let tiny = rng.bases(7);
+    let tiny2 = rng.bases(9);
     // a tandem-repeat contig: its reference segments take the plain-ZSTD (level 19) path, the others the
     // tuple-packed (level 13) path, delta packs a third level - so a compression context that leaks state
     // between calls of one worker shows up in the bytes
@@ -101,13 +102,28 @@ pub fn inputs(seed: u64) -> Arc<Vec<Sample>> {
     rep1[70] = (rep1[70] + 1) & 3;
     Arc::new(vec![
         ("ref#0".to_string(), vec![("cA".to_string(), a.clone()), ("cB".to_string(), b.clone()), ("cR".to_string(), rep)]),
-        ("s1#0".to_string(), vec![("cA".to_string(), a1), ("cB".to_string(), b1), ("cT".to_string(), tiny)]),
+        // cT / cU have no splitter (orphans -> raw groups handed out round-robin in classification order)
+        ("s1#0".to_string(), vec![("cA".to_string(), a1), ("cB".to_string(), b1), ("cT".to_string(), tiny), ("cU".to_string(), tiny2)]),
         ("s2#0".to_string(), vec![("cA".to_string(), a2), ("cB".to_string(), b), ("cR".to_string(), rep1)]),
     ])
 }
 
 pub fn scenarios(prop: &str, seed: u64, thorough: bool) -> Vec<Scenario> {
     let samples = inputs(seed);
+    // variant for the fallback path: the reference carries the same 45-base block in two different
+    // segments; a later sample has a contig that consists of that block only (no splitter at all), so its
+    // only placement route is the fallback-minimizer vote, with two equally good candidate groups
+    let samples_fb = {
+        let mut v = (*samples).clone();
+        let block: Vec<u8> = v[0].1[0].1[20..65].to_vec();
+        let mut a = v[0].1[0].1.clone();
+        let at = a.len() - 50;
+        a.splice(at..at, block.iter().copied());
+        v[0].1[0].1 = a;
+        v[1].1.push(("cF".to_string(), block.clone()));
+        v[2].1.push(("cF".to_string(), { let mut b = block.clone(); b[7] = (b[7] + 1) & 3; b }));
+        Arc::new(v)
+    };
     let base = Cfg { k: 11, segment_size: 40, min_match: 15, threads: 2, pack_size: 50, queue_capacity: 1 << 30, ..Cfg::default() };
     let mut out = Vec::new();
     let ns: Vec<usize> = if thorough { vec![1, 2, 3, 4] } else { vec![1, 2, 3] };
@@ -119,6 +135,15 @@ pub fn scenarios(prop: &str, seed: u64, thorough: bool) -> Vec<Scenario> {
         for ps in [2usize, 3] {
             if ps == 3 && !thorough && n == 3 { continue; }
             out.push(Scenario { name: format!("single.N{n}.pack{ps}"), group: format!("single-file pack={ps}"), cfg: Cfg { threads: n, pack_size: ps, ..base.clone() }, samples: samples.clone(), flow: Flow::SingleFile });
+        }
+    }
+    // fallback minimizers on (hash-ordered candidate ties must not leak into the bytes), and the library
+    // sequence "sync_and_flush with work in flight"
+    for &n in &ns {
+        if n > 3 { continue; }
+        out.push(Scenario { name: format!("multi.N{n}.fallback"), group: "multi-file fallback".into(), cfg: Cfg { threads: n, fallback_frac: 0.9, ..base.clone() }, samples: samples_fb.clone(), flow: Flow::MultiFile });
+        if prop == "C04" {
+            out.push(Scenario { name: format!("sync-in-flight.N{n}"), group: "sync-in-flight".into(), cfg: Cfg { threads: n, ..base.clone() }, samples: samples.clone(), flow: Flow::SyncInFlight });
         }
     }
     // single-file with back-pressure: the queue capacity must not influence the archive either
